@@ -17,7 +17,10 @@ fn run_case(seed: u64, lean: &mut Lean, samples: &mut Vec<J>, hist: &mut std::co
     let mut fails = vec![];
     let mut r = Rng::new(seed);
     let scratch = Scratch::new("trk");
-    let db = Database::builder(scratch.join("db")).worker_threads_unchecked(0).open().unwrap();
+    // a single-writer transactional database: its write transactions hold a snapshot like every other view
+    let txdb = fjall::SingleWriterTxDatabase::builder(scratch.join("db")).worker_threads_unchecked(0).open().unwrap();
+    let db: Database = txdb.inner().clone();
+    let mut tks: Option<fjall::SingleWriterTxKeyspace> = None;
     let tr = db.supervisor.snapshot_tracker.clone();
     let mut ops: Vec<String> = vec![];
     let mut live: Vec<(u64, View)> = vec![];
@@ -29,7 +32,7 @@ fn run_case(seed: u64, lean: &mut Lean, samples: &mut Vec<J>, hist: &mut std::co
     // half of the cases start with a snapshot of the fresh database (instant 0)
     let fresh_snapshot = r.chance(1, 2);
     for step in 0..nops {
-        let choice = if step == 0 && fresh_snapshot { 0 } else { r.below(16) };
+        let choice = if step == 0 && fresh_snapshot { 0 } else { r.below(18) };
         match choice {
             0 | 1 => {
                 let inst = db.visible_seqno();
@@ -51,7 +54,9 @@ fn run_case(seed: u64, lean: &mut Lean, samples: &mut Vec<J>, hist: &mut std::co
                 // a write publishes its seqno; keyspace creation also moves the counters
                 if ks.is_none() {
                     let before = db.visible_seqno();
-                    ks = Some(db.keyspace("a", KeyspaceCreateOptions::default).unwrap());
+                    let t = txdb.keyspace("a", KeyspaceCreateOptions::default).unwrap();
+                    ks = Some(t.inner().clone());
+                    tks = Some(t);
                     let after = db.visible_seqno();
                     if after > before { ops.push(format!("s{after}")); }
                     *hist.entry("create-keyspace".into()).or_insert(0) += 1;
@@ -100,6 +105,25 @@ fn run_case(seed: u64, lean: &mut Lean, samples: &mut Vec<J>, hist: &mut std::co
                     let after = db.visible_seqno();
                     if after > before { ops.push(format!("s{after}")); }
                     *hist.entry("flush".into()).or_insert(0) += 1;
+                }
+            }
+            16 | 17 => {
+                // a write transaction: opens a snapshot at the current instant (often shared with a live view), writes,
+                // commits (one batch: publishes its seqno) and releases its snapshot
+                if let Some(t) = tks.as_ref() {
+                    let inst = db.visible_seqno();
+                    if live.iter().any(|(i, _)| *i == inst) { shared_instant = true; }
+                    let mut tx = txdb.write_tx();
+                    ops.push("o".into());
+                    let s = db.seqno();
+                    let key = format!("k{}", r.below(5)).into_bytes();
+                    let v = format!("t{step}").into_bytes();
+                    tx.insert(t, key.clone(), v.clone());
+                    tx.commit().unwrap();
+                    content.insert(key, v);
+                    ops.push(format!("p{s}"));
+                    ops.push(format!("x{inst}"));
+                    *hist.entry("write-transaction".into()).or_insert(0) += 1;
                 }
             }
             _ => {
